@@ -29,10 +29,13 @@ type cacheModel struct {
 	depUnc map[string]bool
 	// keys whose presence in the cache is uncertain (fail-fast cancellation, crash, faults)
 	unc map[string]bool
+	// non-hermetic targets: the epoch at which the result this machine holds for a key was
+	// produced ("?" = unknown after faults / uncertain recordings)
+	nhLast map[string]string
 }
 
 func newCacheModel() *cacheModel {
-	return &cacheModel{strict: map[string]bool{}, loose: map[string]bool{}, taint: map[string]bool{}, taintUnc: map[string]bool{}, produced: map[string]map[string]*semState{}, unc: map[string]bool{}, depUnc: map[string]bool{}}
+	return &cacheModel{strict: map[string]bool{}, loose: map[string]bool{}, taint: map[string]bool{}, taintUnc: map[string]bool{}, produced: map[string]map[string]*semState{}, unc: map[string]bool{}, depUnc: map[string]bool{}, nhLast: map[string]string{}}
 }
 
 // semState is the semantic state of a target at the time one of its executions produced a
@@ -164,7 +167,7 @@ type wbCase struct {
 	History  []HistOp  `json:"history"`
 }
 
-var allFeatures = []string{"alias", "dirs", "bin", "tags", "fingerprint", "platforms", "tests", "checks", "fail", "timeouts", "edit-outs", "edit-deps", "rootpkg", "wsmut", "taint", "nocache-build", "extfail", "twins", "mirror", "testonly", "flatnames"}
+var allFeatures = []string{"alias", "dirs", "bin", "tags", "fingerprint", "platforms", "tests", "checks", "fail", "timeouts", "edit-outs", "edit-deps", "rootpkg", "wsmut", "taint", "nocache-build", "extfail", "twins", "mirror", "testonly", "flatnames", "trapterm", "nonhermetic"}
 
 func (w *wbuild) Name() string { return "wbuild" }
 
@@ -223,6 +226,11 @@ func (w *wbuild) Drive(s *simrt.Sched, out *RunResult) {
 			w.g.Features[f] = true
 			feats = append(feats, f)
 		}
+	}
+	if w.mode != "remote" {
+		// non-hermetic commands make "the restored bytes are those of the last recorded execution"
+		// observable; that clause belongs to the write-through mirror (C08) only
+		delete(w.g.Features, "nonhermetic")
 	}
 	if w.mode == "twin" {
 		// the two machines share the external world: commands must not change it, and
@@ -836,6 +844,9 @@ func (w *wbuild) checkBuild(res *InvResult, req BuildReq, opts InvOpts, cm *cach
 				report("C18", "target-started-after-interrupt", "sim-time", fmt.Sprintf("SIGINT was delivered at simulated t=%dms, but the command of %s was started at t=%dms", fs.sigSimMS, e.Label, e.StartMS))
 			}
 		}
+		if len(res.Orphans) > 0 && !crashed {
+			report("C18", "command-survived-the-interrupted-build", "orphan", fmt.Sprintf("SIGINT was delivered at simulated t=%dms and grog exited at t=%dms, but the shells of %v were still running and had not been killed", fs.sigSimMS, res.EndSimMS, res.Orphans))
+		}
 		if dt := res.EndSimMS - fs.sigSimMS; dt > 10000 {
 			report("C18", "slow-exit-after-interrupt", "exit-time", fmt.Sprintf("the process ended %d ms (simulated) after SIGINT", dt))
 		}
@@ -1037,6 +1048,20 @@ func (w *wbuild) checkBuild(res *InvResult, req BuildReq, opts InvOpts, cm *cach
 					cm.strict[kS] = true
 					cm.loose[kL] = true
 					delete(cm.unc, kS)
+					if sp.NonHermetic {
+						e := ext0["epoch"]
+						if faulted || !opts.Remote {
+							e = "?" // recorded under faults / only locally: what the remote holds is open
+						}
+						cm.nhLast[kS] = e
+						if w.remoteNH != nil {
+							if opts.Remote && !faulted {
+								w.remoteNH[kS] = e
+							} else if opts.Remote {
+								w.remoteNH[kS] = "?"
+							}
+						}
+					}
 					if depClobbered(sp) {
 						cm.depUnc[kS] = true
 					} else {
@@ -1045,6 +1070,11 @@ func (w *wbuild) checkBuild(res *InvResult, req BuildReq, opts InvOpts, cm *cach
 				}
 				if faulted && cm.taint[l] {
 					cm.taintUnc[l] = true // the taint removal may have been hit by the fault
+				} else if w.mode == "remote" && cm.taint[l] {
+					// the marker lives in two stores (this machine's and the remote); which of them an
+					// execution clears depends on the machine and on whether the remote was
+					// configured for that invocation: left open for the rest of the history
+					cm.taintUnc[l] = true
 				} else {
 					delete(cm.taint, l)
 					delete(cm.taintUnc, l)
@@ -1173,6 +1203,29 @@ func (w *wbuild) checkBuild(res *InvResult, req BuildReq, opts InvOpts, cm *cach
 		}
 		want := ev.Clean(l)
 		got := diskListing(w.M.WS, sp)
+		if sp.NonHermetic && executed[l] == 0 {
+			// restored: the bytes of the execution whose result this machine holds (its own last
+			// recording, else what the remote held when it was fetched)
+			kS := ev.Strict(l)
+			e := cm.nhLast[kS]
+			if e == "" && w.remoteNH != nil {
+				e = w.remoteNH[kS]
+				cm.nhLast[kS] = e
+			}
+			if e == "" || e == "?" || unc0[kS] || cm.unc[kS] || faulted || w.remoteLossy {
+				if e != "" {
+					cm.nhLast[kS] = "?"
+				}
+				continue
+			}
+			want = ev.CleanAt(l, e)
+			if got.String() != want.String() {
+				report("C08", "restored-result-is-not-the-last-recorded-one", "non-hermetic", fmt.Sprintf("%s (same cache key, output depends on the undeclared epoch) was restored, but not with the bytes of the last execution recorded for this key (epoch %s; current epoch %s): a result written by a successful build must be what the mirror hands out afterwards: %s", l, e, ext0["epoch"], listingDiff(want, got)))
+			} else {
+				simrt.Probe("non-hermetic-target-restored-with-last-recorded-bytes")
+			}
+			continue
+		}
 		if got.String() == want.String() {
 			continue
 		}
